@@ -101,6 +101,19 @@ class Lin:
         return " + ".join(parts)
 
 
+class ISet:
+    """a set whose membership uses the interpreted __eq__ of its elements; iteration in insertion order"""
+
+    def __init__(self):
+        self.xs: list = []
+
+    def __repr__(self):
+        return "{" + ", ".join(map(repr, self.xs)) + "}"
+
+
+NOTIMPL = Sym("NotImplemented")
+
+
 class Closure:
     def __init__(self, node, env, fi):
         self.node, self.env, self.fi = node, env, fi
@@ -132,6 +145,7 @@ class MiniInterp:
         self.steps, self.max_steps, self.max_depth = 0, max_steps, max_depth
         self.depth = 0
         self.terms: dict = {}      # uninterpreted terms by name (linear forms refer to them by name)
+        self.class_state: dict = {}    # (class qualname, attribute) -> value written through the class during evaluation
 
     # ------------------------------------------------------------------ entry
     def call(self, fi: FuncInfo, args: list, kwargs: dict | None = None, self_obj=None):
@@ -301,6 +315,9 @@ class MiniInterp:
             obj = self.ev(t.value, env, fi)
             if isinstance(obj, Sym):
                 obj.fields[t.attr] = v
+            elif isinstance(obj, tuple) and obj and obj[0] == "class":
+                owner = next((c for c in obj[1].mro() if t.attr in c.class_attrs), obj[1])
+                self.class_state[(owner.qual, t.attr)] = v
             else:
                 raise Unknown(f"attribute store on {type(obj).__name__}")
         elif isinstance(t, ast.Subscript):
@@ -324,9 +341,62 @@ class MiniInterp:
             raise Unknown(f"assignment target {type(t).__name__}")
 
     # -------------------------------------------------------------- expressions
-    @staticmethod
-    def key(k):
-        return ("sym", k.uid) if isinstance(k, Sym) else k
+    def key(self, k):
+        """dictionary key: symbolic objects are keyed by identity (a project class with its own __eq__ as a
+        dictionary key is outside the fragment)"""
+        if isinstance(k, Sym) and k.cls is not None and k.cls.find_method("__eq__") is not None:
+            raise Unknown(f"instance of {k.cls.name} (own __eq__) used as a dictionary key")
+        return k
+
+    # ----------------------------------------------------------------- equality / sets
+    def equal(self, a, b) -> bool:
+        if a is b:
+            return True
+        for x, y in ((a, b), (b, a)):
+            if isinstance(x, Sym) and x.cls is not None:
+                m = x.cls.find_method("__eq__")
+                if m is not None:
+                    r = self.call(self.prj.func(m.qual), [y], {}, x)
+                    if r is NOTIMPL:
+                        continue
+                    return self.truth(r)
+        if isinstance(a, (Sym, Closure, BoundFunc)) or isinstance(b, (Sym, Closure, BoundFunc)):
+            return False
+        if isinstance(a, Lin) or isinstance(b, Lin):
+            try:
+                return Lin.of(a).key() == Lin.of(b).key()
+            except Unknown:
+                return False
+        if isinstance(a, ISet) or isinstance(b, ISet):
+            return isinstance(a, ISet) and isinstance(b, ISet) and len(a.xs) == len(b.xs) and all(self.contains(b, x) for x in a.xs)
+        if isinstance(a, (list, tuple)) and isinstance(b, (list, tuple)) and type(a) is type(b):
+            return len(a) == len(b) and all(self.equal(x, y) for x, y in zip(a, b))
+        try:
+            return bool(a == b)
+        except Exception:
+            raise Unknown("equality")
+
+    def contains(self, coll, a) -> bool:
+        if isinstance(coll, ISet):
+            return any(self.equal(x, a) for x in coll.xs)
+        if isinstance(coll, dict):
+            return self.key(a) in coll
+        if isinstance(coll, str):
+            if not isinstance(a, str):
+                raise PyRaise("TypeError")
+            return a in coll
+        if isinstance(coll, (list, tuple, range)):
+            return any(self.equal(x, a) for x in coll)
+        if isinstance(coll, _Iter):
+            return any(self.equal(x, a) for x in coll.rest())
+        raise Unknown(f"membership in {type(coll).__name__}")
+
+    def mkset(self, xs) -> "ISet":
+        out = ISet()
+        for x in xs:
+            if not self.contains(out, x):
+                out.xs.append(x)
+        return out
 
     def truth(self, v):
         if isinstance(v, (Sym, Lin)) and self.hook:
@@ -337,6 +407,8 @@ class MiniInterp:
             raise Unknown("truth value of a symbolic number")
         if isinstance(v, (Sym, Closure, BoundFunc)):
             return True
+        if isinstance(v, ISet):
+            return bool(v.xs)
         try:
             return bool(v)
         except Exception:
@@ -349,11 +421,21 @@ class MiniInterp:
             return list(v.keys())
         if isinstance(v, _Iter):
             return v.rest()
+        if isinstance(v, ISet):
+            return list(v.xs)
         if isinstance(v, Sym) and getattr(v, "tuple_order", None):
             return [v.fields[k] for k in v.tuple_order]
         raise Unknown(f"iteration over {type(v).__name__}")
 
     def binop(self, op, a, b, node):
+        if isinstance(a, ISet) and isinstance(b, ISet):
+            if isinstance(op, ast.BitOr):
+                return self.iset_method(a, "union", [b], node)
+            if isinstance(op, ast.BitAnd):
+                return self.iset_method(a, "intersection", [b], node)
+            if isinstance(op, ast.Sub):
+                return self.iset_method(a, "difference", [b], node)
+            raise Unknown("operator on sets")
         if isinstance(a, (Sym, Lin)) or isinstance(b, (Sym, Lin)):
             if isinstance(op, (ast.Add, ast.Sub)):
                 return Lin.of(a).add(Lin.of(b), 1 if isinstance(op, ast.Add) else -1).simplify()
@@ -413,7 +495,7 @@ class MiniInterp:
         if isinstance(n, ast.List):
             return [self.ev(e, env, fi) for e in n.elts]
         if isinstance(n, ast.Set):
-            return {self.key(self.ev(e, env, fi)) for e in n.elts}
+            return self.mkset([self.ev(e, env, fi) for e in n.elts])
         if isinstance(n, ast.Dict):
             return {self.key(self.ev(k, env, fi)): self.ev(v, env, fi) for k, v in zip(n.keys, n.values)}
         if isinstance(n, ast.BoolOp):
@@ -545,7 +627,7 @@ class MiniInterp:
         if isinstance(n, ast.ListComp):
             return out
         if isinstance(n, ast.SetComp):
-            return {self.key(x) for x in out}
+            return self.mkset(out)
         if isinstance(n, ast.DictComp):
             return dict(out)
         return _Iter(out)
@@ -556,13 +638,220 @@ class MiniInterp:
         if isinstance(op, ast.IsNot):
             return not (a is b or (a is None and b is None))
         if isinstance(op, (ast.In, ast.NotIn)):
-            if isinstance(b, dict):
-                r = self.key(a) in b
-            elif isinstance(b, (list, tuple, set, frozenset, str)):
-                r = (self.key(a) in b) if isinstance(b, (set, frozenset)) else any(x is a or (not isinstance(x, Sym) and not isinstance(a, Sym) and x == a) for x in b) if not isinstance(b, str) else a in b
-            else:
-                raise Unknown("membership in this value")
+            r = self.contains(b, a)
             return r if isinstance(op, ast.In) else not r
+        if isinstance(op, (ast.Eq, ast.NotEq)) and ((isinstance(a, Sym) and a.cls is not None) or (isinstance(b, Sym) and b.cls is not None)
+                                                  or isinstance(a, ISet) or isinstance(b, ISet)):
+            r = self.equal(a, b)
+            return r if isinstance(op, ast.Eq) else not r
+        if isinstance(a, (Sym, Lin)) or isinstance(b, (Sym, Lin)):
+            if isinstance(op, (ast.Add, ast.Sub)):
+                return Lin.of(a).add(Lin.of(b), 1 if isinstance(op, ast.Add) else -1).simplify()
+            if isinstance(op, ast.Mult):
+                la, lb = Lin.of(a), Lin.of(b)
+                if not la.terms:
+                    return lb.scale(la.const).simplify()
+                if not lb.terms:
+                    return la.scale(lb.const).simplify()
+            return self.opaque(type(op).__name__, a, b)
+        try:
+            if isinstance(op, ast.Add):
+                return a + b
+            if isinstance(op, ast.Sub):
+                return a - b
+            if isinstance(op, ast.Mult):
+                return a * b
+            if isinstance(op, ast.FloorDiv):
+                return a // b
+            if isinstance(op, ast.Mod):
+                return a % b
+            if isinstance(op, ast.Div):
+                return a / b
+            if isinstance(op, ast.BitOr):
+                return a | b
+            if isinstance(op, ast.BitAnd):
+                return a & b
+        except ZeroDivisionError:
+            raise PyRaise("ZeroDivisionError", node)
+        except TypeError:
+            raise Unknown("binary operator on these operands")
+        raise Unknown(f"operator {type(op).__name__}")
+
+    def opaque(self, op, a, b=None, *more):
+        """uninterpreted term for arithmetic outside the linear fragment; same structure -> same name"""
+        def nm(x):
+            return x.name if isinstance(x, Sym) else repr(x)
+        args = [a] + ([b] if b is not None else []) + list(more)
+        name = f"{op}({', '.join(nm(x) for x in args)})"
+        t = Sym(name)
+        t.fields.update(op=op, a=a, b=b, args=args)
+        self.terms[name] = t
+        return t
+
+    def ev(self, n, env, fi):
+        self.tick()
+        if n is None:
+            return None
+        if isinstance(n, ast.Constant):
+            return n.value
+        if isinstance(n, ast.Name):
+            if n.id in env:
+                return env[n.id]
+            return self.global_name(n.id, fi)
+        if isinstance(n, ast.Tuple):
+            return tuple(self.ev(e, env, fi) for e in n.elts)
+        if isinstance(n, ast.List):
+            return [self.ev(e, env, fi) for e in n.elts]
+        if isinstance(n, ast.Set):
+            return self.mkset([self.ev(e, env, fi) for e in n.elts])
+        if isinstance(n, ast.Dict):
+            return {self.key(self.ev(k, env, fi)): self.ev(v, env, fi) for k, v in zip(n.keys, n.values)}
+        if isinstance(n, ast.BoolOp):
+            v = None
+            for x in n.values:
+                v = self.ev(x, env, fi)
+                t = self.truth(v)
+                if isinstance(n.op, ast.And) and not t:
+                    return v
+                if isinstance(n.op, ast.Or) and t:
+                    return v
+            return v
+        if isinstance(n, ast.UnaryOp):
+            v = self.ev(n.operand, env, fi)
+            if isinstance(n.op, ast.Not):
+                return not self.truth(v)
+            if isinstance(n.op, ast.USub):
+                if isinstance(v, (Sym, Lin)):
+                    return Lin.of(v).scale(-1).simplify()
+                return -v
+            raise Unknown("unary operator")
+        if isinstance(n, ast.BinOp):
+            return self.binop(n.op, self.ev(n.left, env, fi), self.ev(n.right, env, fi), n)
+        if isinstance(n, ast.IfExp):
+            return self.ev(n.body if self.truth(self.ev(n.test, env, fi)) else n.orelse, env, fi)
+        if isinstance(n, ast.Compare):
+            left = self.ev(n.left, env, fi)
+            for op, c in zip(n.ops, n.comparators):
+                right = self.ev(c, env, fi)
+                if not self.compare(op, left, right):
+                    return False
+                left = right
+            return True
+        if isinstance(n, ast.Subscript):
+            obj = self.ev(n.value, env, fi)
+            if isinstance(n.slice, ast.Slice):
+                lo = self.ev(n.slice.lower, env, fi) if n.slice.lower is not None else None
+                hi = self.ev(n.slice.upper, env, fi) if n.slice.upper is not None else None
+                st = self.ev(n.slice.step, env, fi) if n.slice.step is not None else None
+                if isinstance(obj, (list, tuple, str)):
+                    return obj[lo:hi:st]
+                raise Unknown("slice of this value")
+            k = self.ev(n.slice, env, fi)
+            if isinstance(obj, (list, tuple, str, dict, range)):
+                try:
+                    return obj[self.key(k) if isinstance(obj, dict) else k]
+                except (KeyError, IndexError, TypeError) as e:
+                    raise PyRaise(EXC_OF.get(type(e), "Exception"), n)
+            if isinstance(obj, Sym) and getattr(obj, "tuple_order", None) and isinstance(k, int):
+                return obj.fields[obj.tuple_order[k]]
+            if isinstance(obj, Sym) and obj.open:
+                kk = repr(k)
+                if kk not in obj.items:
+                    obj.items[kk] = Sym(f"{obj.name}[{k.name if isinstance(k, Sym) else kk}]", _open=True)
+                return obj.items[kk]
+            raise Unknown(f"subscript of {type(obj).__name__}")
+        if isinstance(n, ast.Attribute):
+            obj = self.ev(n.value, env, fi)
+            return self.getattr(obj, n.attr, fi, n)
+        if isinstance(n, ast.Call):
+            return self.ev_call(n, env, fi)
+        if isinstance(n, (ast.ListComp, ast.SetComp, ast.GeneratorExp, ast.DictComp)):
+            return self.comp(n, env, fi)
+        if isinstance(n, ast.Lambda):
+            return Closure(n, env, fi)
+        if isinstance(n, ast.JoinedStr):
+            parts = []
+            for v in n.values:
+                if isinstance(v, ast.Constant):
+                    parts.append(str(v.value))
+                    continue
+                x = self.ev(v.value, env, fi)
+                spec = ""
+                if v.format_spec is not None:
+                    sp = self.ev(v.format_spec, env, fi)
+                    if not isinstance(sp, str):
+                        raise Unknown("format spec")
+                    spec = sp
+                if isinstance(x, (int, float, str, bool, type(None))):
+                    try:
+                        if v.conversion == ord("r"):
+                            x = repr(x)
+                        elif v.conversion == ord("s"):
+                            x = str(x)
+                        parts.append(format(x, spec))
+                    except (ValueError, TypeError):
+                        raise PyRaise("ValueError", n)
+                else:
+                    parts.append(x)
+            if all(isinstance(x, str) for x in parts):
+                return "".join(parts)
+            return Sym("fstring", parts=parts)
+        if isinstance(n, ast.NamedExpr):
+            v = self.ev(n.value, env, fi)
+            env[n.target.id] = v
+            return v
+        if isinstance(n, ast.Yield):
+            if "__yield__" not in env:
+                raise Unknown("yield outside an interpreted generator")
+            env["__yield__"].append(self.ev(n.value, env, fi) if n.value is not None else None)
+            return None
+        if isinstance(n, ast.YieldFrom):
+            if "__yield__" not in env:
+                raise Unknown("yield outside an interpreted generator")
+            env["__yield__"].extend(self.iterate(self.ev(n.value, env, fi)))
+            return None
+        if isinstance(n, ast.Starred):
+            raise Unknown("starred expression")
+        raise Unknown(f"expression {type(n).__name__}")
+
+    def comp(self, n, env, fi):
+        out = []
+        env2 = dict(env)
+
+        def rec(i):
+            if i == len(n.generators):
+                if isinstance(n, ast.DictComp):
+                    out.append((self.key(self.ev(n.key, env2, fi)), self.ev(n.value, env2, fi)))
+                else:
+                    out.append(self.ev(n.elt, env2, fi))
+                return
+            g = n.generators[i]
+            for x in self.iterate(self.ev(g.iter, env2, fi)):
+                self.tick()
+                self.assign(g.target, x, env2, fi)
+                if all(self.truth(self.ev(c, env2, fi)) for c in g.ifs):
+                    rec(i + 1)
+        rec(0)
+        if isinstance(n, ast.ListComp):
+            return out
+        if isinstance(n, ast.SetComp):
+            return self.mkset(out)
+        if isinstance(n, ast.DictComp):
+            return dict(out)
+        return _Iter(out)
+
+    def compare(self, op, a, b):
+        if isinstance(op, ast.Is):
+            return a is b or (a is None and b is None)
+        if isinstance(op, ast.IsNot):
+            return not (a is b or (a is None and b is None))
+        if isinstance(op, (ast.In, ast.NotIn)):
+            r = self.contains(b, a)
+            return r if isinstance(op, ast.In) else not r
+        if isinstance(op, (ast.Eq, ast.NotEq)) and ((isinstance(a, Sym) and a.cls is not None) or (isinstance(b, Sym) and b.cls is not None)
+                                                  or isinstance(a, ISet) or isinstance(b, ISet)):
+            r = self.equal(a, b)
+            return r if isinstance(op, ast.Eq) else not r
         if isinstance(a, (Sym, Lin)) or isinstance(b, (Sym, Lin)):
             if self.hook:
                 r = self.hook(self, "compare", op, (a, b), None, None, None)
@@ -596,6 +885,8 @@ class MiniInterp:
                         return self.call(self.prj.func(m.qual), [], {}, obj)
                     return BoundFunc(m, obj)
                 for c in obj.cls.mro():
+                    if (c.qual, attr) in self.class_state:
+                        return self.class_state[(c.qual, attr)]
                     if attr in c.class_attrs and c.class_attrs[attr] is not None:
                         f0 = next(iter(c.methods.values()), fi)
                         return self.ev(c.class_attrs[attr], {}, f0)
@@ -618,6 +909,9 @@ class MiniInterp:
             if m is not None:
                 return BoundFunc(m, None)
             for c in ci.mro():
+                if (c.qual, attr) in self.class_state:
+                    return self.class_state[(c.qual, attr)]
+            for c in ci.mro():
                 if attr in c.class_attrs and c.class_attrs[attr] is not None:
                     f0 = next(iter(c.methods.values()), fi)
                     return self.ev(c.class_attrs[attr], {}, f0)
@@ -633,6 +927,11 @@ class MiniInterp:
                 if m is not None:
                     return BoundFunc(m, me)
             return ("method", Sym("ext:super", _open=True), attr)
+        if isinstance(obj, ISet):
+            if attr in ("add", "update", "discard", "remove", "copy", "union", "intersection", "difference", "issubset", "isdisjoint",
+                        "pop", "clear", "issuperset"):
+                return ("iset", obj, attr)
+            raise Unknown(f"set method {attr}")
         t = type(obj)
         if self.hook and t not in SAFE_METHODS:
             r = self.hook(self, "getattr", obj, attr, None, node, fi)
@@ -669,6 +968,8 @@ class MiniInterp:
                 return ("external", tgt[1])
         if name in ("True", "False", "None"):
             return {"True": True, "False": False, "None": None}[name]
+        if name == "NotImplemented":
+            return NOTIMPL
         return ("builtin", name)
 
     def ev_call(self, n: ast.Call, env, fi):
@@ -698,8 +999,21 @@ class MiniInterp:
         r = self.call_callable(f, args, kwargs)
         if r is not NotImplemented:
             return r
+        if isinstance(f, tuple) and f and f[0] == "iset":
+            return self.iset_method(f[1], f[2], args, n)
         if isinstance(f, tuple) and f and f[0] == "native":
             _, obj, attr = f
+            if isinstance(obj, (list, tuple)) and attr in ("index", "count", "remove") and args and any(isinstance(x, Sym) for x in list(obj) + args[:1]):
+                hits = [i for i, x in enumerate(obj) if self.equal(x, args[0])]
+                if attr == "count":
+                    return len(hits)
+                if not hits:
+                    raise PyRaise("ValueError", n)
+                if attr == "index":
+                    return hits[0]
+                del obj[hits[0]]
+                return None
+            args = [a.rest() if isinstance(a, _Iter) else list(a.xs) if isinstance(a, ISet) else a for a in args]
             try:
                 if isinstance(obj, dict) and attr in ("get", "pop", "setdefault") and args:
                     args = [self.key(args[0])] + args[1:]
@@ -719,8 +1033,8 @@ class MiniInterp:
             base = f[1].replace(":", ".").split(".")[-1]
             if base in ("bisect", "bisect_left", "bisect_right"):
                 return getattr(_bisect, base)(list(args[0]), args[1])
-            if base == "deepcopy" or base == "copy":
-                raise Unknown("copy of a value without hook")
+            if base == "deepcopy" and len(args) == 1:
+                return self.deepcopy(args[0])
             mod = f[1].replace(":", ".").split(".")[0]
             if mod == "re" and base in ("compile", "match", "search", "fullmatch", "sub", "findall", "escape") and \
                     all(isinstance(a, (str, int, _re.Pattern)) for a in args) and all(isinstance(v, (str, int)) for v in kwargs.values()):
@@ -737,6 +1051,109 @@ class MiniInterp:
                 return self.call(self.prj.func(cands[0].qual), args, kwargs, f[1])
             raise Unknown(f"method {f[2]} of {f[1]}")
         raise Unknown(f"call of {type(f).__name__}")
+
+    def iset_method(self, st: ISet, name, args, node):
+        if name == "add":
+            if not self.contains(st, args[0]):
+                st.xs.append(args[0])
+            return None
+        if name == "update":
+            for a in args:
+                for x in self.iterate(a):
+                    if not self.contains(st, x):
+                        st.xs.append(x)
+            return None
+        if name in ("discard", "remove"):
+            hits = [i for i, x in enumerate(st.xs) if self.equal(x, args[0])]
+            if not hits:
+                if name == "remove":
+                    raise PyRaise("KeyError", node)
+                return None
+            del st.xs[hits[0]]
+            return None
+        if name == "copy":
+            return self.mkset(st.xs)
+        if name == "union":
+            return self.mkset(list(st.xs) + [x for a in args for x in self.iterate(a)])
+        if name == "intersection":
+            others = [self.iterate(a) for a in args]
+            return self.mkset([x for x in st.xs if all(any(self.equal(x, y) for y in o) for o in others)])
+        if name == "difference":
+            others = [y for a in args for y in self.iterate(a)]
+            return self.mkset([x for x in st.xs if not any(self.equal(x, y) for y in others)])
+        if name == "issubset":
+            o = self.iterate(args[0])
+            return all(any(self.equal(x, y) for y in o) for x in st.xs)
+        if name == "issuperset":
+            return all(self.contains(st, y) for y in self.iterate(args[0]))
+        if name == "isdisjoint":
+            o = self.iterate(args[0])
+            return not any(any(self.equal(x, y) for y in o) for x in st.xs)
+        if name == "pop":
+            if not st.xs:
+                raise PyRaise("KeyError", node)
+            return st.xs.pop()
+        if name == "clear":
+            st.xs.clear()
+            return None
+        raise Unknown(f"set method {name}")
+
+    def isinstance_(self, v, c) -> bool:
+        if isinstance(c, tuple) and c and c[0] == "builtin":
+            ty = {"list": list, "tuple": tuple, "dict": dict, "str": str, "int": int, "bool": bool, "float": float}.get(c[1])
+            if c[1] in ("set", "frozenset"):
+                return isinstance(v, ISet)
+            if ty is None:
+                raise Unknown(f"isinstance(_, {c[1]})")
+            if isinstance(v, (Sym, Lin)):
+                return False
+            if ty is int and isinstance(v, bool):
+                return True
+            return isinstance(v, ty)
+        if isinstance(c, tuple) and c and c[0] == "class":
+            return isinstance(v, Sym) and v.cls is not None and v.cls.is_subclass_of(c[1])
+        if isinstance(c, tuple) and c and c[0] == "external":
+            if isinstance(v, Sym):
+                return False if v.cls is not None else (_ for _ in ()).throw(Unknown("isinstance of an open term"))
+            base = c[1].replace(":", ".").split(".")[-1]
+            if base in ("Iterable", "Sequence", "Collection"):
+                return isinstance(v, (list, tuple, dict, str, ISet, _Iter))
+            return False
+        if isinstance(c, tuple):
+            return any(self.isinstance_(v, x) for x in c)
+        raise Unknown("isinstance with this class argument")
+
+    def deepcopy(self, v, memo=None):
+        memo = memo if memo is not None else {}
+        if id(v) in memo:
+            return memo[id(v)]
+        if isinstance(v, Sym):
+            c = Sym(v.name, _open=v.open, _cls=v.cls)
+            memo[id(v)] = c
+            for k, x in v.fields.items():
+                c.fields[k] = self.deepcopy(x, memo)
+            if getattr(v, "tuple_order", None):
+                c.tuple_order = list(v.tuple_order)
+            return c
+        if isinstance(v, list):
+            c = []
+            memo[id(v)] = c
+            c.extend(self.deepcopy(x, memo) for x in v)
+            return c
+        if isinstance(v, tuple):
+            return tuple(self.deepcopy(x, memo) for x in v)
+        if isinstance(v, dict):
+            c = {}
+            memo[id(v)] = c
+            for k, x in v.items():
+                c[self.deepcopy(k, memo) if not isinstance(k, Sym) else k] = self.deepcopy(x, memo)
+            return c
+        if isinstance(v, ISet):
+            c = ISet()
+            memo[id(v)] = c
+            c.xs = [self.deepcopy(x, memo) for x in v.xs]
+            return c
+        return v
 
     def construct(self, ci, args, kwargs, node, fi):
         obj = Sym(ci.name + "()", _cls=ci)
@@ -768,6 +1185,8 @@ class MiniInterp:
     def builtin(self, name, args, kwargs, node):
         try:
             if name == "len":
+                if isinstance(args[0], ISet):
+                    return len(args[0].xs)
                 return len(args[0]) if not isinstance(args[0], _Iter) else len(args[0].rest())
             if name == "range":
                 return range(*args)
@@ -796,7 +1215,7 @@ class MiniInterp:
                 v = self.iterate(args[0]) if args else []
                 return list(v) if name == "list" else tuple(v)
             if name in ("set", "frozenset"):
-                return {self.key(x) for x in (self.iterate(args[0]) if args else [])}
+                return self.mkset(self.iterate(args[0]) if args else [])
             if name == "dict":
                 return dict(args[0]) if args else dict(kwargs)
             if name == "sorted":
@@ -837,8 +1256,8 @@ class MiniInterp:
                     if len(args) > 2:
                         return args[2]
                     raise
-            if name == "isinstance":
-                raise Unknown("isinstance")
+            if name == "isinstance" and len(args) == 2:
+                return self.isinstance_(args[0], args[1])
             if name == "print":
                 return None
         except (TypeError, ValueError) as e:
